@@ -306,6 +306,28 @@ def rule_thread_affinity(chk: Check, view: AsyncView, rid: str):
             if e.kind == "store_attr" and rc in ("node", "conn"):
                 chk.violation(rid, f"cross-write:{key}:{e.name.split('.')[-1]}", f"{key} writes {e.name} of another wrapper object from thread {sorted(cl)}",
                               chk.loc(view.fi(key), e.node))
+    # (d) task code does not read the private, task-mutated state of *another* wrapper object either (`self.output_node._phase_scheduled` in a
+    # connection task): what it would see depends on how far the other thread has got
+    mutated = {}  # wrapper kind -> private attributes its own task code assigns
+    for key, r in view.results.items():
+        if not (classes.get(key, set()) & {"N", "C"}):
+            continue
+        kind = view.cls_of.get(key)
+        for e in r.events:
+            if e.kind == "store_attr" and e.recv == S("self") and e.name.split(".")[-1].startswith("_"):
+                mutated.setdefault(kind, set()).add(e.name.split(".")[-1])
+    other_of = {"conn": ("node", ("output_node", "input_node")), "node": ("conn", ())}
+    for key, r in view.results.items():
+        cl = classes.get(key, set())
+        if not (cl & {"N", "C"}) or key.count(".") > 1:
+            continue
+        kind = view.cls_of.get(key)
+        okind, via = other_of.get(kind, (None, ()))
+        for n in ast.walk(view.fi(key).node):
+            if isinstance(n, ast.Attribute) and isinstance(n.ctx, ast.Load) and n.attr in mutated.get(okind, ()) and isinstance(n.value, ast.Attribute) \
+                    and isinstance(n.value.value, ast.Name) and n.value.value.id == "self" and n.value.attr in via:
+                chk.violation(rid, f"cross-read:{key}:{n.attr}", f"{key} (thread {sorted(cl)}) reads self.{n.value.attr}.{n.attr}, which the other wrapper's own tasks assign: the value "
+                              "seen depends on the interleaving of the two threads", chk.loc(view.fi(key), n))
 
 
 def _recv_tag(recv) -> str:
